@@ -2,7 +2,9 @@
 import vselftest
 from checks import selfmut
 import json
+import os
 import re
+from concurrent.futures import ThreadPoolExecutor
 
 
 def sig_of(rej, scn):
@@ -16,9 +18,29 @@ def sig_of(rej, scn):
         return "C10:goroutine-leak:" + re.sub(r"[^A-Za-z0-9.]+", "-", ",".join(rej.get("leaked") or []))[:80]
     if why == "caller-stuck":
         return "C10:caller-stuck:" + re.sub(r"[^A-Za-z]+", "-", ",".join(rej.get("stuck") or []))[:60]
+    if why in ("query-deadlock", "query-stuck-after-close"):
+        # which callers are left blocked depends on the schedule: the signature names when the replies came
+        return "C10:%s:%s" % (why, "-".join(sorted({w.split("/", 1)[1] for w in rej.get("who") or []})))
     if why == "panic":
         return "C10:panic:" + re.sub(r"[^A-Za-z0-9]+", "-", det)[:60]
     return "C10:%s" % why
+
+
+def model_checks(c, specs, jobs):
+    """jobs: (tla, cfg, workers, expect_violation). The TLC runs go side by side (a JVM start costs seconds);
+    model_check's bookkeeping is then done one after the other on their outputs. Returns {cfg: ok}."""
+    real = c._tlc
+
+    def one(j):
+        return real(specs, j[0], j[1], {}, j[2], os.path.join(c.scratch, "mcp-" + os.path.splitext(j[1])[0]), 3000,
+                    ("-noGenerateSpecTE",))
+    with ThreadPoolExecutor(4) as ex:
+        outs = dict(zip([(j[0], j[1]) for j in jobs], ex.map(one, jobs)))
+    c._tlc = lambda specdir, tla, cfg, *a, **k: outs[(tla, cfg)]
+    try:
+        return {j[1]: c.model_check(specs, j[0], j[1], workers=j[2], expect_violation=j[3])[0] for j in jobs}
+    finally:
+        del c._tlc
 
 
 def main(c):
@@ -27,24 +49,29 @@ def main(c):
     c.assumptions += [
         "data races are observed by Go's race detector on the executions the driver produces (trusted base); the design-level interleavings are explored by TLC on specs/conc/Shutdown.tla",
         "an application that neither reads events nor lets replies be handled while it waits for a query has deadlocked itself: not generated",
-        "goroutines 'started by the library' are those whose creator frame is in package vaxis or vaxis/ansi",
+        "goroutines 'started by the library' are those whose creator frame is in a package of the library (vaxis, vaxis/ansi, vaxis/widgets/...: the spinner's ticker goroutine is one of them)",
+        "a query call has to return while Vaxis runs when the terminal answered it and the application kept running (bound 4 s), and in every case once Close has returned (bound 1.5 s); what the call returns is not judged (C03 judges answers)",
     ]
     if not c.replay:
-        for cfg in ("MC_Shutdown_fixed_main.cfg", "MC_Shutdown_fixed_signal.cfg"):
-            ok, _ = c.model_check(specs, "Shutdown.tla", cfg, workers=16)
-            if not ok:
-                c.notes.append("MODEL: Shutdown (repaired shape) violates a property: " + cfg)
-        bad = 0
-        for cfg in ("MC_Shutdown_prefix_main.cfg", "MC_Shutdown_prefix_signal.cfg", "MC_Shutdown_wakefirst.cfg"):
-            ok, _ = c.model_check(specs, "Shutdown.tla", cfg, workers=4, expect_violation=True)
-            bad += 0 if ok else 1
-        c.cov["prefix_shutdown_models_violated_as_expected"] = bad
-        # the resize hand-off between requesters and Render: repaired shape holds, as-found shape loses a request
-        ok, _ = c.model_check(specs, "ResizeFlag.tla", "ResizeFlag_fixed.cfg", workers=2)
-        if not ok:
-            c.notes.append("MODEL: ResizeFlag (repaired shape) violates NoLostResize")
-        ok, _ = c.model_check(specs, "ResizeFlag.tla", "ResizeFlag_found.cfg", workers=1, expect_violation=True)
-        c.cov["resize_flag_as_found_refuted"] = not ok
+        jobs = [("Shutdown.tla", "MC_Shutdown_fixed_main.cfg", 8, False), ("Shutdown.tla", "MC_Shutdown_fixed_signal.cfg", 8, False),
+                ("Shutdown.tla", "MC_Shutdown_prefix_main.cfg", 2, True), ("Shutdown.tla", "MC_Shutdown_prefix_signal.cfg", 2, True),
+                ("Shutdown.tla", "MC_Shutdown_wakefirst.cfg", 2, True),
+                # the resize hand-off between requesters and Render: repaired shape holds, as-found shape loses a request
+                ("ResizeFlag.tla", "ResizeFlag_fixed.cfg", 2, False), ("ResizeFlag.tla", "ResizeFlag_found.cfg", 1, True),
+                # the query hand-off: serialised callers get their own answers; serialised + timeout + release on Close always
+                # return; the as-found shape deadlocks with two callers, and a never-answered query blocks its caller for good
+                ("Query.tla", "Query_serial.cfg", 1, False), ("Query.tla", "Query_fixed.cfg", 2, False),
+                ("Query.tla", "Query_found.cfg", 1, True), ("Query.tla", "Query_found_never.cfg", 1, True),
+                ("Query.tla", "Query_serial_never.cfg", 1, True)]
+        ok = model_checks(c, specs, jobs)
+        for tla, cfg, _, expect in jobs:
+            if not expect and not ok[cfg]:
+                c.notes.append("MODEL: %s (repaired shape) violates a property: %s" % (tla, cfg))
+        c.cov["prefix_shutdown_models_violated_as_expected"] = sum(
+            1 for cfg in ("MC_Shutdown_prefix_main.cfg", "MC_Shutdown_prefix_signal.cfg", "MC_Shutdown_wakefirst.cfg") if not ok[cfg])
+        c.cov["resize_flag_as_found_refuted"] = not ok["ResizeFlag_found.cfg"]
+        c.cov["query_handoff_as_found_models_deadlock"] = sum(
+            1 for cfg in ("Query_found.cfg", "Query_found_never.cfg", "Query_serial_never.cfg") if not ok[cfg])
     td = c.drive(drv, "c10", replay=c.replay)
     rejects, _ = c.validate_traces(specs, "Conc_Trace.tla", "Conc_Trace.cfg", td)
     if not c.replay:
@@ -54,6 +81,8 @@ def main(c):
             ("goroutine left", selfmut.conc("leaked", ["vaxis.(*Vaxis).openTty.func1"])),
             ("poster order", selfmut.poster_order),
             ("resize request lost", selfmut.resize_lost),
+            ("answered query call never returned", selfmut.conc("queries", [{"kind": "bg", "reply": "late", "before": False, "after": True}])),
+            ("query call blocked after Close", selfmut.conc("queries", [{"kind": "color", "reply": "never", "before": False, "after": False}])),
         ])
     idx = c.load_index(td)
     c.count_distinct(idx, nontrivial=lambda s: True)
@@ -65,5 +94,9 @@ def main(c):
     return c.finish(
         rule="scenario = event-queue size (1,2,4,1024) x capability set x input flood x reader policy (drain/slow/none) x up to 3 "
              "posters (PostEvent/PostEventBlocking/SyncFunc/Resize) x queries from another goroutine x frames rendered meanwhile x "
-             "lone ESC 0-13 ms before the end x end (Close, Close twice, Suspend+Close, Suspend+Resume+Close), executed with the "
-             "race detector (halt on first report) in child processes; distinct = distinct descriptor")
+             "lone ESC 0-13 ms before the end x end (Close, Close twice, Suspend+Close, Suspend+Resume+Close, Close from a second "
+             "goroutine); plus query scenarios: 1-4 goroutines x calls of QueryColor(distinct indexes)/QueryForeground/QueryBackground/"
+             "CursorPosition/ClipboardPop x replies on time / 1-7 ms late / never / while the input is shut down / after Resume x 0-3 "
+             "Suspend+Resume cycles meanwhile x end; plus widgets/spinner scenarios (run, stop queued, stopped, Start/Stop/Toggle from "
+             "3 goroutines, across Suspend+Resume) then Close; executed with the race detector (halt on first report) in child "
+             "processes; distinct = distinct descriptor")
